@@ -6,12 +6,15 @@ strict={'whitespace-separates-paragraphs': False} | default).
 """
 import io
 import itertools
+import random
 
 from harness.core import cq_list, cq_str, err_kind
 
 ID = "C08"
 CHECK_MODULE = "Deb822.InjectCheck"
 PROPS_FILE = "Props/C08.v"
+# validate_input / __setitem__ / the reader and the writer that C08 is about are regenerated and tied in C02's tie file
+TIE_FILE = "Props/C02Tie.v"
 ANCHORS = [("lib/debian/deb822.py",
             ["validate_input", "__setitem__", "_key_part", "_single", "_multi", "_multidata",
              "_internal_parser", "_dump_format", "_dump_str", "dump", "get_as_string",
@@ -157,6 +160,14 @@ def _gen_random(rng):
 
 
 def generate(rng, n, tier):
+    # FIRST (before any value has been seen by the library in this process): cases whose strings were assigned
+    # before to multivalued fields of OTHER objects, which accept anything.  If something leaks between objects
+    # the earliest failing case then carries the flag and replays on its own.
+    rng2 = random.Random(rng.random())
+    for _ in range(max(20, n // 16)):
+        c = _gen_random(rng2)
+        c["pre_mv"] = True
+        yield c
     maxlen = 5 if tier == "thorough" else 3
     for i, v in enumerate(_exhaustive(maxlen)):
         ops, t = _template(i, v)
@@ -164,7 +175,26 @@ def generate(rng, n, tier):
     for v in REALISTIC:
         yield {"ops": [["A", "x"], ["B", "y"], ["a", v]], "t": 2, "src": "real", "where": "first"}
     for _ in range(n):
-        yield _gen_random(rng)
+        c = _gen_random(rng)
+        if rng.random() < 0.10:
+            # the paragraph object comes from an input without any content line instead of Deb822()
+            c["start"] = rng.randrange(len(START_FORMS))
+        yield c
+
+
+START_FORMS = [lambda: "", lambda: [], lambda: "\n", lambda: "#c\n", lambda: b"", lambda: io.StringIO(""),
+               lambda: ["#only a comment"], lambda: " \n\t\n", lambda: io.BytesIO(b"\n\n")]
+
+
+def _earlier_multivalued(ops):
+    from debian import deb822
+    for cls, field in ((deb822.Dsc, "Files"), (deb822.Changes, "Checksums-Sha1"), (deb822.Release, "MD5Sum")):
+        for _, v in ops:
+            for f in (lambda: cls().__setitem__(field, v), lambda: cls({field: v}), lambda: cls({"Source": "x", field: v}).dump()):
+                try:
+                    f()
+                except Exception:
+                    pass
 
 
 def from_json(j):
@@ -193,9 +223,25 @@ def _read(text, strict, as_file):
         return {"err": err_kind(e)}
 
 
+def _state(p):
+    """The mapping as the public API shows it; a key whose value cannot be read is recorded with a marker value
+    (no model state contains it), so that a half-registered field is seen by agree and holds."""
+    out = []
+    for kk in p:
+        try:
+            out.append([str(kk), p[kk]])
+        except Exception as exc:
+            out.append([str(kk), "\x00<%s>" % err_kind(exc)])
+    if len(p) != len(out):
+        out.append(["\x00<len>", str(len(p))])
+    return out
+
+
 def run_impl(case):
     from debian import deb822
-    p = deb822.Deb822()
+    if case.get("pre_mv"):
+        _earlier_multivalued(case["ops"])
+    p = deb822.Deb822() if case.get("start") is None else deb822.Deb822(START_FORMS[case["start"]]())
     steps = []
     for k, v in case["ops"]:
         try:
@@ -203,8 +249,11 @@ def run_impl(case):
             e = None
         except Exception as exc:
             e = err_kind(exc)
-        steps.append([e, [[str(kk), p[kk]] for kk in p]])
-    text = p.dump()
+        steps.append([e, _state(p)])
+    try:
+        text = p.dump()
+    except Exception as exc:       # dump() of a paragraph built by accepted assignments must not raise
+        text = "\x00<dump raised %s>" % err_kind(exc)
     if not isinstance(text, str):
         raise TypeError("dump() did not return str")
     nows = {"whitespace-separates-paragraphs": False}
